@@ -176,7 +176,14 @@ class Quantity:
         return Quantity(self.magnitude.value[key], self.baseunits)
         
     def __array_ufunc__(self, ufunc, method, *inputs, **kwargs):
-        if ufunc==np.sqrt:
+        if ufunc in [np.add, np.subtract, np.multiply, np.true_divide] and len(inputs)==2:
+            # a NumPy number or array on the left side of an operator (np.array([1,2,3]) * quantity)
+            left, right = [x if isinstance(x, Quantity) else Quantity(x) for x in inputs]
+            if ufunc==np.add: return left + right
+            elif ufunc==np.subtract: return left - right
+            elif ufunc==np.multiply: return left * right
+            else: return left / right
+        elif ufunc==np.sqrt:
             return Quantity(ufunc(inputs[0].magnitude.value), inputs[0].baseunits/2)
         elif ufunc==np.cbrt:
             return Quantity(ufunc(inputs[0].magnitude.value), inputs[0].baseunits/3)
